@@ -416,8 +416,32 @@ class Engine:
 
     def oblige_all(self, kind, label, named, detail=''):
         """conjunction of named conditions; on failure the detail lists the conjuncts false in the model"""
-        conds = [(n, zb(c)) for n, c in named]
+        conds = []
+        for n, c in named:
+            c = z3.simplify(zb(c))
+            if not z3.is_true(c):
+                conds.append((n, c))
         ob = self.oblige(kind, label, z3.And(*[c for _, c in conds]) if conds else z3.BoolVal(True), detail)
+        if ob.status == 'undecided' and len(conds) > 1:
+            # split: decide every conjunct on its own
+            self.obligations.remove(ob)
+            worst = None
+            for n, c in conds:
+                o2 = self.oblige(kind, label, c, detail)
+                if o2.status == 'proved':
+                    self.obligations.remove(o2)
+                    continue
+                if o2.status == 'failed':
+                    o2.detail = 'violated: ' + n
+                else:
+                    o2.detail = 'undecided conjunct: %s %s' % (n, o2.detail)
+                worst = o2
+            if worst is None:
+                ob.status = 'proved'
+                ob.detail = 'proved conjunct-wise'
+                self.obligations.append(ob)
+                return ob
+            return worst
         if ob.status == 'failed' and ob.z3model is not None and not ob.detail.startswith('violated:'):
             bad = []
             for n, c in conds:
